@@ -1,11 +1,11 @@
 CONSTANTS
-  BUG = "no_modes"
+  BUG = "meta_unchecked"
   DefFile = 420
   DefDir = 493
   MaxEntries = 1
   MaxComps = 2
-  Diverge = FALSE
-  NameSet = "full"
+  Diverge = TRUE
+  NameSet = "small"
 SPECIFICATION Spec
-INVARIANT TreeExact
+INVARIANT OutsideUntouched
 CHECK_DEADLOCK FALSE
